@@ -23,6 +23,7 @@ EXPLANATION = (
     'are behind IsValid(); the shared hex lookup is bounded (C09.R3).')
 EXPLANATION += " C16.R1 also requires that no branch on the B3 sampling field cuts off the success return (the debug flag 'd' never invalidates the header). C16.R3 (cooperating sites): a caller that ignores HexToBinary's result is accepted only while every return of HexToBinary is behind a memset of the whole buffer."
 ROUND2_EXPLANATION = (' C16.R5: no Inject / Extract / helper of the B3 and Jaeger propagators calls RuntimeContext; every GetSpan in Inject receives the context parameter; Extract uses its context parameter (or a local copy) only in SetSpan / SetValue and return. Shared C09.R9: id block operations cover the whole id.')
+ROUND2_EXPLANATION += (' C16.R6: every SpanContext an extractor builds from header data has is_remote = true, and its trace id / span id / flags are decoded (dependence through locals, decode helpers, output buffers and control-dependent flag helpers) from the documented field or header of the wire format (table FIELD_TABLE: Jaeger fields 0 / 1 / 3; B3 single fields 0 / 1 / 2 and the X-B3-* headers, compared by header text); helpers that fill text out-parameters and table-driven decoding end undecided.')
 EXPLANATION += ROUND2_EXPLANATION
 NOT_DECIDED = 'robustness of HexToBinary\'s variable-index writes on arbitrary bytes; acceptance of every documented variant over all inputs.'
 
@@ -543,12 +544,127 @@ def rule_r5_purity(ck, prog, rule='C16.R5', classes=PROPAGATOR_CLASSES):
     return cnt
 
 
+FIELD_TABLE = {
+    # documented wire formats: Jaeger `{trace-id}:{span-id}:{parent-span-id}:{flags}`; B3 single `{TraceId}-{SpanId}-{SamplingState}[-{ParentSpanId}]`,
+    # B3 multi: X-B3-TraceId / X-B3-SpanId / X-B3-Sampled
+    'trace::propagation::JaegerPropagator::ExtractImpl': ({('field', 0)}, {('field', 1)}, {('field', 3)}),
+    'trace::propagation::B3PropagatorExtractor::ExtractImpl': ({('field', 0), ('header', 'x-b3-traceid')}, {('field', 1), ('header', 'x-b3-spanid')},
+                                                               {('field', 2), ('header', 'x-b3-sampled')}),
+}
+
+
+def rule_r6_extracted_context(ck, prog, rule='C16.R6', table=None, remote_only=()):
+    """what an extractor builds: (a) every SpanContext it constructs from header data is marked remote; (b) the trace id, span id
+    and flags of that context are decoded from the documented field / header of the wire format (dependence through locals, the
+    decode helpers and their output buffers)"""
+    table = FIELD_TABLE if table is None else table
+    for fname in list(table) + list(remote_only):
+        f = prog.function(fname)
+        g = Graph(prog, f, inline=same_class_inline(prog, f.cls or ''), sync_lambdas=False, max_depth=2)
+        rd = reaching_defs(g)
+        cons = [p for p in g.points if p.n is not None and p.n['k'] == 'construct' and strip_targs(p.n.get('c', '')).endswith('trace::SpanContext::SpanContext') and len(p.n.get('args', [])) >= 4]
+        short_name = fname.split('::')[-2]
+        if not cons:
+            ck.inconclusive(rule, f, 'extracted-context-is-remote@' + short_name, None, 'no four-argument SpanContext construction found')
+            continue
+        for cp in cons:
+            r = strip_casts(cp.f, cp.n['args'][3])
+            if 'v' in r:
+                ck.verdict(r['v'] == 1, rule, cp.f, 'extracted-context-is-remote@' + short_name, cp.n, 'is_remote = true' if r['v'] == 1 else
+                           '%s marks the context it extracted from the carrier as local (is_remote = false): samplers and processors treat a remote parent as a local one' % short_name)
+            else:
+                ck.inconclusive(rule, cp.f, 'extracted-context-is-remote@' + short_name, cp.n, 'the remote flag is not a constant')
+        if fname not in table:
+            continue
+
+        def sources(sf, idx, sc, depth=0, seen=None):
+            seen = set() if seen is None else seen
+            out = set()
+            if depth > 10 or idx is None or idx < 0:
+                return out
+            for (of, on, oc) in origins(g, rd, sf, idx, sc):
+                key = (id(oc), of.key, on['i'])
+                if key in seen:
+                    continue
+                seen.add(key)
+                k = on['k']
+                if k == 'call' and strip_targs(on.get('c', '')).endswith('TextMapCarrier::Get') and on.get('args'):
+                    # the header name by its text (the value of the namespace-scope constant, or a literal), never by the constant's name
+                    vals = []
+                    for j in list(of.subtree(on['args'][0])) + [on['args'][0]]:
+                        m = of.nodes[j]
+                        if m['k'] == 'str':
+                            vals.append(m.get('s'))
+                        elif m['k'] == 'ref' and m.get('qn') in prog.globals and prog.globals[m['qn']].get('str') is not None:
+                            vals.append(prog.globals[m['qn']]['str'])
+                        elif m['k'] == 'ref' and m.get('sk') in ('global', 'static', 'var'):
+                            for gq, gv in prog.globals.items():
+                                if gv.get('id') == m.get('id') and gv.get('str') is not None:
+                                    vals.append(gv['str'])
+                    out.add(('header', vals[0].lower() if vals else '?'))
+                elif k == 'subscript' or (k == 'call' and on.get('op') == '[]'):
+                    ix = on['index'] if k == 'subscript' else (on['args'][0] if on.get('args') else None)
+                    base_t = (of.nodes[on['base']].get('t') if k == 'subscript' else (of.nodes[on['obj']].get('t') if on.get('obj') is not None else '')) or ''
+                    v = strip_casts(of, ix).get('v') if ix is not None else None
+                    if 'string_view' in base_t and v is not None and ('[' in base_t or 'array' in base_t):
+                        out.add(('field', v))
+                    else:
+                        nxt = on['base'] if k == 'subscript' else on.get('obj')
+                        out |= sources(of, nxt, oc, depth + 1, seen)
+                elif k == 'call' and any(m_ == 1 for m_ in on.get('pm', [])) and \
+                        any('string_view' in (of.nodes[a].get('t') or '') for (a, m_) in zip(on.get('args', []), on.get('pm', [])) if m_ == 1 and a is not None and a >= 0):
+                    # a helper that fills text out-parameters: which field goes into which parameter is decided inside it
+                    out.add(('header', '?'))
+                elif k in ('call', 'construct'):
+                    args = [a for a in on.get('args', []) if a is not None and a >= 0]
+                    if on.get('obj') is not None and k == 'call' and not args:
+                        args = [on['obj']]
+                    for a in args[:1]:
+                        out |= sources(of, a, oc, depth + 1, seen)
+                elif k == 'ref' and on.get('sk') == 'local':
+                    # an output buffer / out-parameter: what the decode helper that received it was given as text
+                    for p in g.points:
+                        n = p.n
+                        if n is None or n['k'] != 'call' or len(n.get('args', [])) < 2:
+                            continue
+                        nm = strip_targs(n.get('c', '')).rsplit('::', 1)[-1]
+                        if nm not in ('HexToBinary',):
+                            continue
+                        if any(p.f.nodes[j]['k'] == 'ref' and p.f.nodes[j].get('id') == on.get('id') for a in n['args'][1:2] for j in list(p.f.subtree(a)) + [a]):
+                            out |= sources(p.f, n['args'][0], p.ctx, depth + 1, seen)
+                elif k in ('unop', 'binop', 'cond', 'cast'):
+                    for j in ([on.get('e')] if k in ('unop', 'cast') else [on.get('lhs'), on.get('rhs'), on.get('a'), on.get('b')]):
+                        if j is not None and j >= 0:
+                            out |= sources(of, j, oc, depth + 1, seen)
+            return out
+        want = table[fname]
+        for cp in cons:
+            for (k, label) in enumerate(('trace id', 'span id', 'flags')):
+                got = sources(cp.f, cp.n['args'][k], cp.ctx)
+                if not got:
+                    # a decode helper whose result depends on its text argument by control only (constant returns chosen by tests
+                    # of the text): the text it is handed is the source
+                    a_ = strip_casts(cp.f, cp.n['args'][k])
+                    while a_['k'] == 'construct' and a_.get('copymove') and a_.get('args'):
+                        a_ = strip_casts(cp.f, a_['args'][0])
+                    if a_['k'] in ('call', 'construct') and a_.get('args'):
+                        got = sources(cp.f, a_['args'][0], cp.ctx)
+                site = 'field-table:%s@%s' % (label.replace(' ', '-'), short_name)
+                if not got or any(x[1] == '?' for x in got):
+                    ck.inconclusive(rule, cp.f, site, cp.n, 'the header field the %s is decoded from was not resolved (%s)' % (label, sorted(got)))
+                    continue
+                ok = got == want[k]
+                ck.verdict(ok, rule, cp.f, site, cp.n, 'the %s is decoded from %s' % (label, sorted(got)) if ok else
+                           '%s decodes the %s from %s; the wire format puts it in %s: extraction does not give back what injection wrote' % (short_name, label, sorted(got), sorted(want[k])))
+
+
 def run(ck, prog):
     ck.doc('C16.R1', 'sampling field written from IsSampled() only; extractors read exactly the sampled decision; the B3 sampling field never invalidates', 6)
     ck.doc('C16.R2', 'constant-bounded, exactly partitioned header buffers with separators at the documented offsets', 6)
     ck.doc('C16.R3', 'install only valid contexts; B3 single-header precedence; decodes checked or zero-filled', 11)
     ck.doc('C16.R4', 'every non-constant string_view subscript of the propagation helpers is dominated by a guard implying index < size', 1)
     ck.doc('C16.R5', 'propagators are functions of (carrier, given context): Inject reads GetSpan(context parameter), no thread state, Extract only installs into / returns its context parameter', 10)
+    ck.doc('C16.R6', 'an extracted context is marked remote; trace id / span id / flags are decoded from the documented field or header of the wire format', 8)
     ck.doc('C09.R3', '(shared rule) bounded subscripts into constant tables (hex lookup)', 10)
     ck.doc('C09.R7', '(shared rule, see C09) no function-local static of the propagators is modified after, or initialised from the data of, a call', 1)
     with ck.canary('C16.R1'):
@@ -564,6 +680,7 @@ def run(ck, prog):
     c09.rule_r3(ck, prog, rule='C09.R3')
     rule_r4_view_subscripts(ck, prog)
     rule_r5_purity(ck, prog)
+    rule_r6_extracted_context(ck, prog)
     ck.doc('C09.R9', '(shared rule, see C09) block operations on the id representation cover the whole array ("non-zero ids" is decided over all bytes)', 2)
     c09.rule_r9_id_blocks(ck, prog)
     if not c09.rule_r7(ck, prog, prefixes=('opentelemetry::trace::propagation::',)):
